@@ -133,6 +133,16 @@ theorem validOrder_perm (uses : List Nat) (numArgs : Nat) (order : List Nat)
   have := (List.subperm_of_subset List.nodup_range hsub).perm_of_length_le (by simp [hl])
   exact this.symm
 
+/-- with any permutation a correct sort may have produced, every declared variable receives exactly one name -/
+theorem renameScope_each_once (c : Cfg) (s : ScopeIn)
+    (h : validOrder (s.declared.map (·.2)) s.numArgs s.order = true) :
+    ((renameScope c true s).map (·.1)).Perm (List.range s.declared.length) := by
+  have hp := validOrder_perm _ _ _ h
+  have hl : s.order.length = s.declared.length := by simpa using hp.length_eq
+  simp only [renameScope, if_true]
+  rw [List.map_fst_zip (by rw [newNames_length, hl]; exact Nat.le_refl _)]
+  simpa using hp
+
 example : validOrder [1, 5, 2, 5] 1 [0, 3, 1, 2] = true ∧ validOrder [1, 5, 2, 5] 1 [0, 1, 3, 2] = true ∧
     validOrder [1, 5, 2, 5] 1 [1, 0, 3, 2] = false := by decide
 
